@@ -138,43 +138,49 @@ pub fn count_expansions(p: &str, cap: usize) -> usize {
     go(&v, cap).min(cap + 1)
 }
 
-/// Expand the first (left-most) top-level group, recursively.  Requires
-/// properly nested braces.
+/// The csh-style expansion: expand the first (left-most) group of each
+/// partially expanded string until none is left, first alternative first.
+/// Requires properly nested braces.  (Iterative, so that the reference itself
+/// has no depth limit on patterns with thousands of groups.)
 pub fn expand(p: &str) -> Vec<String> {
-    let chars: Vec<char> = p.chars().collect();
-    let Some(open) = chars.iter().position(|&c| c == '{') else {
-        return vec![p.to_string()];
-    };
-    let mut depth = 0;
-    let mut alts: Vec<String> = vec![];
-    let mut cur = String::new();
-    let mut close = None;
-    for (j, &c) in chars.iter().enumerate().skip(open) {
-        if c == '{' {
-            depth += 1;
-            if depth > 1 {
+    let mut out = vec![];
+    let mut work = vec![p.to_string()];
+    while let Some(p) = work.pop() {
+        let chars: Vec<char> = p.chars().collect();
+        let Some(open) = chars.iter().position(|&c| c == '{') else {
+            out.push(p);
+            continue;
+        };
+        let mut depth = 0;
+        let mut alts: Vec<String> = vec![];
+        let mut cur = String::new();
+        let mut close = None;
+        for (j, &c) in chars.iter().enumerate().skip(open) {
+            if c == '{' {
+                depth += 1;
+                if depth > 1 {
+                    cur.push(c);
+                }
+            } else if c == '}' {
+                depth -= 1;
+                if depth == 0 {
+                    alts.push(std::mem::take(&mut cur));
+                    close = Some(j);
+                    break;
+                }
+                cur.push(c);
+            } else if c == ',' && depth == 1 {
+                alts.push(std::mem::take(&mut cur));
+            } else {
                 cur.push(c);
             }
-        } else if c == '}' {
-            depth -= 1;
-            if depth == 0 {
-                alts.push(std::mem::take(&mut cur));
-                close = Some(j);
-                break;
-            }
-            cur.push(c);
-        } else if c == ',' && depth == 1 {
-            alts.push(std::mem::take(&mut cur));
-        } else {
-            cur.push(c);
         }
-    }
-    let close = close.expect("expand() needs properly nested braces");
-    let prefix: String = chars[..open].iter().collect();
-    let suffix: String = chars[close + 1..].iter().collect();
-    let mut out = vec![];
-    for a in alts {
-        out.extend(expand(&format!("{prefix}{a}{suffix}")));
+        let close = close.expect("expand() needs properly nested braces");
+        let prefix: String = chars[..open].iter().collect();
+        let suffix: String = chars[close + 1..].iter().collect();
+        for a in alts.iter().rev() {
+            work.push(format!("{prefix}{a}{suffix}"));
+        }
     }
     out
 }
